@@ -208,6 +208,65 @@ theorem create_wrong_signer_rejected (encode : List Single → B) (sign : K → 
     | false => rfl
     | true => exact absurd (hunf ik signer alg _ hv) hne
 
+/-! ### `signingParamsForPublicKey`: the digest that is signed is the digest the verifier recomputes -/
+
+/-- every signable row of `signatureAlgorithmDetails` names the digest `CheckSignatureFromKey` uses for it
+    (whole table, by evaluation). -/
+theorem sigDetails_rows_consistent :
+    ∀ r ∈ sigDetails, r.hash ≠ 0 → verifyHash r.algo = some r.hash := by decide
+
+/-- **signing and verification agree on the digest**: whenever `signingParamsForPublicKey` accepts a signer key
+    (RSA, P-224, P-256, P-384, P-521) and a requested algorithm (0 = default), the digest it has the key sign is
+    exactly the digest `x509.CheckSignatureFromKey` computes for the algorithm identifier it writes into the
+    response — so a response made by `CreateResponse` with a correct signer verifies under that signer's key
+    (the hypothesis `hsig` of `create_parse_roundtrip`), for every key kind and every requested algorithm. -/
+theorem signing_digest_is_verified_digest (k : KeyKind) (req h a : Nat)
+    (hs : signingParams k req = .ok (h, a)) : verifyHash a = some h ∧ h ≠ 0 := by
+  unfold signingParams at hs
+  split at hs
+  · cases hs
+  · rename_i pka h0 a0 hd
+    split at hs
+    · cases hs
+      exact defaultParams_consistent k pka h a hd
+    · split at hs
+      · cases hs
+      · rename_i r hr
+        split at hs
+        · cases hs
+        · split at hs
+          · cases hs
+          · rename_i hne
+            cases hs
+            exact ⟨sigDetails_rows_consistent r (findRow_mem req sigDetails r hr).1 hne, hne⟩
+
+/-- an explicitly requested algorithm is the one written (never silently replaced), and it belongs to the
+    signer key's family. -/
+theorem signing_requested_is_written (k : KeyKind) (req h a : Nat) (hreq : req ≠ 0)
+    (hs : signingParams k req = .ok (h, a)) :
+    a = req ∧ ∃ pka h0 a0 r, defaultParams k = some (pka, h0, a0) ∧ r ∈ sigDetails ∧ r.algo = req ∧ r.pka = pka := by
+  unfold signingParams at hs
+  split at hs
+  · cases hs
+  · rename_i pka h0 a0 hd
+    simp only [hreq, if_false] at hs
+    split at hs
+    · cases hs
+    · rename_i r hr
+      split at hs
+      · cases hs
+      · rename_i hp
+        split at hs
+        · cases hs
+        · cases hs
+          have hm := findRow_mem req sigDetails r hr
+          exact ⟨hm.2, pka, h0, a0, r, hd, hm.1, hm.2, by simpa using hp⟩
+
+/-- unknown curves and non-RSA/ECDSA keys (Ed25519 …) are refused whatever is requested. -/
+theorem signing_refuses_other_keys (req : Nat) :
+    signingParams .otherCurve req = .err ∧ signingParams .otherKey req = .err := by
+  simp [signingParams, defaultParams]
+
 /-! ### non-vacuity: concrete inputs satisfying the hypotheses -/
 section examples
 def exVerify (k : Nat) (_ : Nat) (m s : List Nat) : Bool := s == k :: m
@@ -238,6 +297,12 @@ example : ∀ k a m, exVerify k a m ((fun k m => k :: m) k m) = true := by
 example : ∀ k k' a m, exVerify k a m ((fun k m => k :: m) k' m) = true → k = k' := by
   intro k k' a m h; simp [exVerify] at h; exact h.symm
 example : hashSupported (if (0 : Nat) = 0 then 3 else 0) = true := by decide
+-- signing_digest_is_verified_digest / signing_requested_is_written: P-521 default, P-521 with ECDSA-SHA1 requested, RSA with an ECDSA algorithm
+example : signingParams .p521 0 = .ok (7, 12) := by decide
+example : signingParams .p521 9 = .ok (3, 9) := by decide
+example : signingParams .p224 0 = .ok (5, 10) := by decide
+example : signingParams .rsa 10 = .err := by decide
+example : signingParams .rsa 1 = .err := by decide
 end examples
 
 end ZV.C13
